@@ -26,7 +26,7 @@ META = {
 
 
 META['explanation'] += ' Rounds 4-5: ' + "R3 _popToLoop decided by constant propagation on every stack of open loops up to depth 4 x target type; Close reaches _popToLoop('ISA') on every path to its return. R5 Write decided per segment id x check_837_lx: bookkeeping first, trailers regenerated, ISA through _write_isa_segment, LX renumbered, anything else written once."
-META['technique'] += '; conditional constant propagation over the CFG on finite, complete input domains (DESIGN.md 10.4.1)'
+META['technique'] = META.get('technique', 'static analysis: AST/CFG rules over /repo source + shipped XML data') + '; conditional constant propagation over the CFG on finite, complete input domains (DESIGN.md 10.4.1)'
 
 
 def _reader_pairs(ctx):
